@@ -435,7 +435,9 @@ class _Run:
                     if (ti, pn) in self.rejected_on:
                         # the parameter stopped behaving as the model's (unchanged) link map says right after a
                         # rejected attempt on it: the rejected attempt had an effect on the links
-                        clause = 'C02.links'
+                        # (reported under the property being checked: for C08 the link did not survive a non-override)
+                        if self.case['prop'] == 'C02':
+                            clause = 'C02.links'
                         where = f"{where}; earlier rejected attempt: {self.rejected_on[(ti, pn)]}"
                     self.viol(clause, f"{where}: T{ti}.{pn} ({kind}{' to ' + str(ref) if ref else ''}) holds {got!r}, expected {exp!r}; "
                                       f"sources {self.msrc}")
